@@ -11,7 +11,9 @@ from hv.base import ShardResult, Violation
 
 PROP = "C14"
 RULE = ("generated strongly connected street graphs with strongly varying speeds (5-120 km/h, slow direct streets vs fast detours arise by "
-        "construction) and the shipped Denver graph; for link pairs (a, b): travel time of the inner part of route(a.start -> b.end), summed from "
+        "construction; every third graph has uniform speeds, where the search estimate is tight) and the shipped Denver graph; each case asks one "
+        "network object a sequence of queries: random link pairs plus 'fans' (every link into and out of one junction as destination, from 1-3 "
+        "origins, so that many destinations share a cell); for link pairs (a, b): travel time of the inner part of route(a.start -> b.end), summed from "
         "the graph's own travel_time attributes, must equal the minimum travel time between a's end junction and b's start junction computed by "
         "an independent heapq Dijkstra written for the harness (rel. tol 1e-9). non-trivial = junction pair whose fastest path is not a "
         "fewest-links path; distinct = sha1(case)")
@@ -24,11 +26,14 @@ FLOORS = {"quick": {"pairs": 2000, "flag:fastest_is_not_fewest_links": 150}, "th
 @st.composite
 def st_case(draw) -> Dict[str, Any]:
     net = draw(st.sampled_from(["gen", "gen", "gen", "denver"]))
-    g = draw(graphs.st_graph(5, 14, arbitrary_lengths=draw(st.booleans()), scales=(1, 1, 1, 3, 10))) if net == "gen" else None
+    g = draw(graphs.st_graph(5, 14, varied_speed=draw(st.sampled_from([True, True, False])), arbitrary_lengths=draw(st.booleans()), scales=(1, 1, 1, 3, 10))) if net == "gen" else None
     pairs = draw(st.lists(st.tuples(st.integers(0, 1000), st.integers(0, 1000)).map(list), min_size=1, max_size=12))
+    # one network object answers many queries in a run, and many of them end in the same cell: every link into a junction ends
+    # in the cell where every link out of it starts. a "fan" asks for all of those destinations in turn from a few origins
+    fans = draw(st.lists(st.tuples(st.integers(0, 1000), st.lists(st.integers(0, 1000), min_size=1, max_size=3), st.integers(0, 50)).map(list), max_size=3))
     # the location resolution is configuration (sim_h3_resolution, default 15): coarser grids put the two ends of short
     # links into one cell
-    return {"net": net, "graph": g, "pairs": pairs, "res": draw(st.sampled_from([15, 15, 15, 13, 12])) if net != "hav" else 15}
+    return {"net": net, "graph": g, "pairs": pairs, "fans": fans, "res": draw(st.sampled_from([15, 15, 15, 13, 12])) if net != "hav" else 15}
 
 
 def check_case(case: Dict[str, Any]) -> Tuple[List[Violation], Set[str], Dict[str, int]]:
@@ -40,9 +45,17 @@ def check_case(case: Dict[str, Any]) -> Tuple[List[Violation], Set[str], Dict[st
     rn = graphs.denver_network(res=case.get("res", 15)) if case["net"] == "denver" else graphs.build_network(case["graph"], res=case.get("res", 15))
     edges = graphs.edge_table(rn)
     links = graphs.sorted_links(rn)
-    for pi, (ai, bi) in enumerate(case["pairs"]):
-        a, b = links[ai % len(links)], links[bi % len(links)]
-        o, d = EntityPosition(a.link_id, a.start), EntityPosition(b.link_id, b.end)
+    queries = [(links[ai % len(links)], links[bi % len(links)], "end") for ai, bi in case["pairs"]]
+    nodes = sorted({int(l.link_id.split("-")[0]) for l in links})
+    for ni, origins, rot in case.get("fans", []):
+        node = nodes[ni % len(nodes)]
+        dests = [(l, "end") for l in links if int(l.link_id.split("-")[1]) == node] + [(l, "start") for l in links if int(l.link_id.split("-")[0]) == node]
+        dests = dests[rot % len(dests):] + dests[:rot % len(dests)]
+        for ai in origins:
+            queries += [(links[ai % len(links)], b, w) for b, w in dests[:8]]
+        flags.add("fan_of_destinations_in_one_cell")
+    for pi, (a, b, w) in enumerate(queries):
+        o, d = EntityPosition(a.link_id, a.start), EntityPosition(b.link_id, b.end if w == "end" else b.start)
         if o == d:
             continue
         r = rn.route(o, d)
